@@ -1,7 +1,12 @@
 """known_findings.txt reader (the file is committed and never written at run time).
 
-  known: property=<id> key=<mechanism-key> <what fails>
+  known: property=<id>[,<id>...] key=<mechanism-key> <what fails>
   fixed: property=<id> <commit> <what failed>
+
+A known finding is keyed by mechanism.  Its key is (i) a feature gate for the shared generators - the feature that
+triggers the mechanism is not generated in the judged workloads of ANY check, so whatever a judged workload reports is
+by construction not a listed finding - and (ii) the name of a reproducer in mf/known.py that every run of the checks of
+the listed properties executes (KNOWN-FINDING line while it still fails).
 """
 from __future__ import annotations
 
@@ -13,7 +18,7 @@ from . import core
 PATH = os.path.join(core.VERIF, "known_findings.txt")
 
 
-def load(prop):
+def load_all():
     out = {}
     if not os.path.exists(PATH):
         return out
@@ -22,6 +27,14 @@ def load(prop):
         if not line or line.startswith("#"):
             continue
         m = re.match(r"known:\s+property=(\S+)\s+key=(\S+)\s+(.*)$", line)
-        if m and m.group(1) == prop:
-            out[m.group(2)] = {"status": "known", "text": m.group(3)}
+        if m:
+            out[m.group(2)] = {"status": "known", "props": m.group(1).split(","), "text": m.group(3)}
     return out
+
+
+def load(prop):
+    return {k: e for k, e in load_all().items() if prop in e["props"]}
+
+
+def all_gates():
+    return sorted(load_all().keys())
